@@ -277,7 +277,7 @@ pub fn c12(ctx: &mut Ctx) {
         let fw: Vec<(&str, HasDiscoveries)> = vec![("any", HasDiscoveries::Any), ("anyfail", HasDiscoveries::AnyFailures), ("allfail", HasDiscoveries::AllFailures),
             ("allof", HasDiscoveries::AllOf(["p0", "p1"].into_iter().collect())), ("anyof", HasDiscoveries::AnyOf(["p1"].into_iter().collect()))];
         for (fname, f) in fw {
-            for (st, th) in [(Strategy::Bfs, 1usize), (Strategy::Dfs, 1)] {
+            for (st, th) in [(Strategy::Bfs, 1usize), (Strategy::Dfs, 1), (Strategy::OnDemand, 1)] {
                 let case = format!("c12.finish:{}:{:?}:g{}:{}", fname, st, gi, g.describe());
                 if !ctx.want(&case) { continue; }
                 let o = run(&g, st, &Opts { threads: th, finish_when: Some(f.clone()), ..Default::default() });
@@ -293,6 +293,23 @@ pub fn c12(ctx: &mut Ctx) {
                 let complete = o.visited.iter().copied().collect::<BTreeSet<u8>>() == reach;
                 ctx.check(&case, "c12-finish-when", &["HD.matches.ensures.any", "CB.spawn.worker-loop.finish"], complete || holds, format!("stopped early with discoveries {:?}", d), "early stop only when the finish condition holds".into());
             }
+        }
+    }
+    // every property discoverable, finish condition that never holds (AnyFailures with `sometimes` properties only): the only
+    // legitimate reason to end before the whole space is evaluated is that the check is DONE in the sense of
+    // `Checker::is_done` - every property has a discovery, no verdict can change any more (DESIGN 9.3, O-C12-1)
+    for (gi, (n, inits, edges, bound)) in graphs(seed(), false).into_iter().enumerate() {
+        let props = vec![(Sometimes, 0b00011u16), (Sometimes, 0b00110u16)];
+        let g = mk(n, &inits, &edges, bound, props.clone());
+        let reach = g.reach();
+        for (st, th) in [(Strategy::Bfs, 1usize), (Strategy::Dfs, 1), (Strategy::OnDemand, 1)] {
+            let case = format!("c12.finish:anyfail-never:{:?}:g{}:{}", st, gi, g.describe());
+            if !ctx.want(&case) { continue; }
+            let o = run(&g, st, &Opts { threads: th, finish_when: Some(HasDiscoveries::AnyFailures), ..Default::default() });
+            let d: BTreeSet<&str> = o.discoveries.keys().copied().collect();
+            let complete = o.visited.iter().copied().collect::<BTreeSet<u8>>() == reach;
+            ctx.check(&case, "c12-finish-when", &["WL.ond_iteration.ensures.stop-only-if", "WL.bfs_iteration.ensures.stop-only-if", "WL.dfs_iteration.ensures.stop-only-if"], o.finished && (complete || d.len() == props.len()),
+                format!("finished={} stopped early (visited {:?} of {:?}) with discoveries {:?} although AnyFailures cannot hold and not every property is discovered", o.finished, o.visited, reach, d), "early stop only when the finish condition holds (or every property has a discovery)".into());
         }
     }
 }
